@@ -271,6 +271,23 @@ fn main() -> Result<()> {
         .unwrap_or_else(get_evm_network_from_env)?;
     println!("EVM network: {evm_network:?}");
 
+    // Verification hook (off unless built with `--cfg maidsafe_safe_network_verif`): print what the
+    // command line was parsed into, plus the values derived from it above, and exit before anything
+    // is started. Used by the /verif harness to compare the argument lists written by antctl.
+    #[cfg(maidsafe_safe_network_verif)]
+    if env::var_os("ANT_VERIF_PRINT_OPT").is_some() {
+        println!("ANT_VERIF_OPT_BEGIN");
+        println!("{opt:#?}");
+        println!("ANT_VERIF_OPT_END");
+        println!("ANT_VERIF_DERIVED rewards_address={rewards_address:?}");
+        println!("ANT_VERIF_DERIVED evm_network={evm_network:?}");
+        println!(
+            "ANT_VERIF_DERIVED node_socket_addr={:?}",
+            SocketAddr::new(opt.ip, opt.port)
+        );
+        std::process::exit(0);
+    }
+
     let node_socket_addr = SocketAddr::new(opt.ip, opt.port);
     let (root_dir, keypair) = get_root_dir_and_keypair(&opt.root_dir)?;
 
